@@ -2485,7 +2485,7 @@ PSymbolEntry EnterIntSymbolWithFlags(
     SymbolRejected = False;
     if ((MomLocHandle == -1) || (DestHandle != -2) || MayChange) {
         EnterSymbol(pNeu, MayChange, DestHandle);
-        if (MakeDebug) {
+        if (MakeDebug && !SymbolRejected) {
             PrintSymTree(pNeu->Tree.Name);
         }
     } else {
@@ -2525,7 +2525,7 @@ void EnterExtSymbol(
 
     if ((MomLocHandle == -1) || (DestHandle != -2) || MayChange) {
         EnterSymbol(pNeu, MayChange, DestHandle);
-        if (MakeDebug) {
+        if (MakeDebug && !SymbolRejected) {
             PrintSymTree(pNeu->Tree.Name);
         }
     } else {
@@ -2566,7 +2566,7 @@ PSymbolEntry EnterRelSymbol(
     SymbolRejected = False;
     if ((MomLocHandle == -1) || (DestHandle != -2) || MayChange) {
         EnterSymbol(pNeu, MayChange, DestHandle);
-        if (MakeDebug) {
+        if (MakeDebug && !SymbolRejected) {
             PrintSymTree(pNeu->Tree.Name);
         }
     } else {
@@ -2601,7 +2601,7 @@ void EnterFloatSymbol(tStrComp const* pName, Double Wert, Boolean MayChange) {
 
     if ((MomLocHandle == -1) || (DestHandle != -2) || MayChange) {
         EnterSymbol(pNeu, MayChange, DestHandle);
-        if (MakeDebug) {
+        if (MakeDebug && !SymbolRejected) {
             PrintSymTree(pNeu->Tree.Name);
         }
     } else {
@@ -2641,7 +2641,7 @@ void EnterNonZStringSymbolWithFlags(
 
     if ((MomLocHandle == -1) || (DestHandle != -2) || MayChange) {
         EnterSymbol(pNeu, MayChange, DestHandle);
-        if (MakeDebug) {
+        if (MakeDebug && !SymbolRejected) {
             PrintSymTree(pNeu->Tree.Name);
         }
     } else {
@@ -2694,7 +2694,7 @@ void EnterRegSymbol(
 
     if ((MomLocHandle == -1) || (DestHandle != -2) || MayChange) {
         EnterSymbol(pNeu, MayChange, DestHandle);
-        if (MakeDebug) {
+        if (MakeDebug && !SymbolRejected) {
             PrintSymTree(pNeu->Tree.Name);
         }
         RegistersDefined = True;
